@@ -130,14 +130,15 @@ static void observe(ScriptContext& ctx)
 static void runCase(const std::string& id, const std::vector<std::string>& ops)
 {
     g_clock = 1000;
+    std::printf("case %s\n", id.c_str());
+    std::fflush(stdout);
+    verif_case_watchdog(ops.size());
+    {   // the context is destroyed inside the watched region: a corrupted queue can hang its destructor
     ScriptContext ctx;
     ctx.EventContext::Set(&ctx);
     World w;
     g_w = &w;
     for (int i = 0; i < 3; ++i) { w.lis[i] = new Probe(); w.lis[i]->id = i; }
-    std::printf("case %s\n", id.c_str());
-    std::fflush(stdout);
-    verif_case_watchdog(ops.size());
     for (const std::string& line : ops) {
         std::istringstream is(line);
         std::vector<std::string> t;
@@ -152,8 +153,9 @@ static void runCase(const std::string& id, const std::vector<std::string>& ops)
     }
     for (int i = 0; i < 3; ++i) { delete w.lis[i]; w.lis[i] = nullptr; }
     ctx.GetEventQueue().ClearEventList();
-    verif_watchdog_off();
     g_w = nullptr;
+    }
+    verif_watchdog_off();
     std::printf("end\n");
     std::fflush(stdout);
 }
